@@ -931,6 +931,63 @@ func init() {
 			emitStrs("checkedHelperShape", "`arithmaticHelperiChecked`: the assignments to `final` and the refusal branch of the run-time loop", l, fd != nil)
 		}
 
+		// ---- stdmath (`{! …}` formulas): the integer operators `%`, `<<`, `>>` of the `ops` table - the only
+		// operations of the formula evaluator that can panic (integer remainder by zero, negative shift count) -
+		// as `v := int64(right); if GUARD { return math.NaN() }; return float64(int64(left) OP v)`
+		{
+			const mops = "pkg/expressions/stdmath/ops.go"
+			var shape []string
+			okAll := true
+			for _, p := range [][4]string{{"%", "mathModGuard", "r", "%"}, {"<<", "mathShlGuard", "n", "<<"}, {">>", "mathShrGuard", "n", ">>"}} {
+				t := newC08tr(c, []string{p[2]}, nil)
+				res := "false"
+				fl, _ := c.c08MapEntry(mops, "ops", p[0]).(*ast.FuncLit)
+				if fl == nil || len(fl.Body.List) != 3 {
+					t.fail("ops[\"" + p[0] + "\"] is not func(left, right float64) float64 { v := int64(right); if …; return … }")
+					okAll = false
+				} else {
+					as, ok0 := fl.Body.List[0].(*ast.AssignStmt)
+					is, ok1 := fl.Body.List[1].(*ast.IfStmt)
+					rs, ok2 := fl.Body.List[2].(*ast.ReturnStmt)
+					if !ok0 || !ok1 || !ok2 || c.Print(as) != p[2]+" := int64(right)" || is.Init != nil || is.Else != nil || !c.c08Returns(is, "math.NaN()") ||
+						len(rs.Results) != 1 || c.Print(rs.Results[0]) != "float64(int64(left) "+p[3]+" "+p[2]+")" {
+						t.fail("shape of ops[\"" + p[0] + "\"]")
+						okAll = false
+					} else {
+						res = t.cond(is.Cond)
+					}
+					for _, st := range fl.Body.List {
+						shape = append(shape, p[0]+": "+strings.Join(strings.Fields(c.Print(st)), " "))
+					}
+				}
+				emitDef(p[1], "stdmath `"+p[0]+"`: the condition on `"+p[2]+" := int64(right)` under which the operator answers NaN instead of computing `int64(left) "+p[3]+" "+p[2]+"`", []string{p[2]}, "", "Bool", t, res)
+			}
+			// every other entry of `ops` must be free of integer division / remainder / shifts
+			var others []string
+			if cl, ok := c.Var(mops, "ops").(*ast.CompositeLit); ok {
+				for _, el := range cl.Elts {
+					kv, ok := el.(*ast.KeyValueExpr)
+					if !ok {
+						continue
+					}
+					k, _ := StringLit(kv.Key)
+					if k == "%" || k == "<<" || k == ">>" {
+						continue
+					}
+					ast.Inspect(kv.Value, func(n ast.Node) bool {
+						if be, ok := n.(*ast.BinaryExpr); ok && (be.Op == token.REM || be.Op == token.SHL || be.Op == token.SHR || (be.Op == token.QUO && strings.Contains(c.Print(be), "int"))) {
+							others = append(others, k+": "+c.Print(be))
+						}
+						return true
+					})
+				}
+			} else {
+				okAll = false
+			}
+			emitStrs("mathIntOpShape", "stdmath `%` `<<` `>>`: every statement of the three function literals", shape, okAll)
+			emitStrs("mathOtherIntOps", "integer remainders, integer quotients and shifts in every OTHER entry of stdmath's `ops` table (none)", others, okAll)
+		}
+
 		// ---- bucket / bucketrange: the constant size is the divisor of `val / bucketSize`
 		{
 			const common = "pkg/expressions/stdlib/funcsCommon.go"
